@@ -1,6 +1,9 @@
 package main
 
 import (
+	"go/token"
+	"go/types"
+
 	"golang.org/x/tools/go/ssa"
 )
 
@@ -129,4 +132,87 @@ func (c *Ctx) isAccessorField(fa *ssa.FieldAddr) bool {
 		}
 	}
 	return false
+}
+
+// R13.6: the voters trees rebuilt at load time and the trees rebuilt by replay
+// tile the round range: loadFromDisk covers [startR, latestDbRound] INCLUSIVE
+// because trackerRegistry.replay starts at dbRound+1 (C09 R09.6).
+func init() {
+	extend("C13", Extension{
+		Run:         ruleVotersReloadInclusive,
+		Explanation: "R13.6 (restart does not lose a voters round): the loop of votersTracker.loadFromDisk that rebuilds the state-proof voters trees runs while r <= latestDbRound (inclusive bound on its latestDbRound parameter) and calls loadTree for every such round; replay rebuilds later rounds starting at dbRound+1, so an exclusive bound would leave the voters of a round equal to the DB round rebuilt by neither.",
+		Floor:       map[string]int{"R13.6": 2},
+	})
+}
+
+func ruleVotersReloadInclusive(c *Ctx) {
+	const rule = "R13.6"
+	fn := c.Fn("ledger.votersTracker.loadFromDisk")
+	loadTree := c.Func("ledger.votersTracker.loadTree")
+	name := "ledger.votersTracker.loadFromDisk"
+	var latest *ssa.Parameter
+	for _, p := range fn.Params {
+		if nt, ok := p.Type().(interface{ Obj() *types.TypeName }); ok && nt.Obj().Name() == "Round" {
+			latest = p
+		}
+	}
+	if latest == nil {
+		c.Unk(rule, name+":latestDbRound", c.Pos(fn.Pos()), "no Round parameter found")
+		return
+	}
+	calls := CallsTo(fn, false, loadTree)
+	if len(calls) == 0 {
+		c.Unk(rule, name+":loadTree", c.Pos(fn.Pos()), "no loadTree call found")
+		return
+	}
+	// the loop test: a comparison between a loop-carried value and the parameter that dominates the loadTree call
+	found := false
+	inclusive := false
+	var pos ssa.Instruction
+	for _, b := range fn.Blocks {
+		iff, ok := b.Instrs[len(b.Instrs)-1].(*ssa.If)
+		if !ok {
+			continue
+		}
+		bo, ok := iff.Cond.(*ssa.BinOp)
+		if !ok {
+			continue
+		}
+		var other ssa.Value
+		op := bo.Op
+		switch {
+		case MentionsValue(bo.Y, latest, 3) && !MentionsValue(bo.X, latest, 3):
+			other = bo.X
+		case MentionsValue(bo.X, latest, 3) && !MentionsValue(bo.Y, latest, 3):
+			other = bo.Y
+			op = mirrorOp(op)
+		default:
+			continue
+		}
+		if _, isPhi := other.(*ssa.Phi); !isPhi {
+			continue
+		}
+		if !b.Succs[0].Dominates(calls[0].Block()) {
+			continue
+		}
+		found = true
+		pos = iff
+		// r <= latest   (or r < latest+1)
+		if op == token.LEQ && (strip(bo.Y) == ssa.Value(latest) || strip(bo.X) == ssa.Value(latest)) {
+			inclusive = true
+		}
+		if op == token.LSS {
+			for _, side := range []ssa.Value{bo.X, bo.Y} {
+				if add, ok := side.(*ssa.BinOp); ok && add.Op == token.ADD && (IsConstInt(1)(add.Y) || IsConstInt(1)(add.X)) && MentionsValue(add, latest, 2) {
+					inclusive = true
+				}
+			}
+		}
+	}
+	if !found {
+		c.Unk(rule, name+":loop bound", c.Pos(fn.Pos()), "the rebuild loop's test against latestDbRound was not recognised")
+		return
+	}
+	c.Check(inclusive, rule, name+":for r <= latestDbRound", c.Pos(pos.Pos()), "the rebuild loop includes the round equal to the tracker DB round (replay only rebuilds rounds after it)")
+	c.Ok(rule, name+":loadTree per round", c.Pos(calls[0].Pos()), "loadTree is called inside that loop")
 }
